@@ -1061,6 +1061,11 @@ func TestVerifC31(t *testing.T) {
 		var c c31Case
 		ev.ReplayCase(&c)
 		r.Eval(1)
+		if c.Kind == "nonce" || c.Kind == "long" {
+			c31LongReplay(r, c.Kind)
+			r.Finish(false)
+			return
+		}
 		c31Run(r, st, &c)
 		r.Sample(c)
 		r.Finish(false)
@@ -1072,6 +1077,8 @@ func TestVerifC31(t *testing.T) {
 	readAlpha := []int{1, 2, 16, F - 1, F, 4 * F}
 	boundSizes := c31BoundarySizes()
 	r.Rule(fmt.Sprintf("All size alphabets are derived from the code at run time: F = secureConnFrameSize = %d, H = 65536 = range of the 16-bit length field of the frame header. ", F) +
+		"nonce: the real increaseNonce driven 70000 steps from zero and 4096 steps from 72 directly-set states around every byte-carry boundary (j=1..12 trailing/leading 0xff bytes x fill{00,5a,fe}), per suite: all visited nonces pairwise distinct and equal to an independent 96-bit positional counter; " +
+		"long connection: per suite K one-byte writes (quick 3300, thorough 70000) through the real Write path, intact read-back (reader nonces pairwise distinct), then swap of two adjacent frames / drop / duplicate replayed from frame 0 at positions {1,2,254..257,3058..3062,65534..65537,K-3} and, with the reader nonce restored from the recording, at EVERY position 0..K-3; " +
 		"keys: 8 key roles (A<B both orders and defaultLower assignments, equal keys, equal-X/opposite-Y) x 3 AEAD suites x secrets{1,2}; " +
 		"bounds: write sizes {F-1,F,F+1,2F-1,2F,2F+1,H-1,H,H+1,2H-1,2H,2H+1} x read buffers {1,16,F-1,F,F+1,4F,total+1}: quick = every single write x every read size x 3 suites x 2 schedules, every pair of writes x reads{F+1,total+1} (first suite); " +
 		"thorough = singles and pairs x every cyclic read pattern of length<=2 x 3 suites x 2 schedules, triples x reads{F+1,4F,total+1} (first suite); plus one packet through PacketWriter/PacketReader whose payload, or whose direct bufio pass-through write (payload-4066), has each of those sizes x 3 suites x 2 conn chunkings; " +
@@ -1086,7 +1093,14 @@ func TestVerifC31(t *testing.T) {
 		"the in-memory conn reports io.EOF when its queue is empty (peer closed); would-block is not modelled",
 		"flipping the two unused padding bytes of the frame header and dropping the LAST frame (= early close) need not be detected; then the delivered stream must be a prefix of the written one",
 		"after the first error the connection is considered dead (production closes it); nothing is read after it",
+		"the nonce-counter reference takes its endianness from the first step of the real code; the all-0xff nonce (2^96 frames, exhaustion) is not stepped over",
 		"cryptographic strength, nonce exhaustion and frames > 1024 bytes from an authenticated peer are not covered")
+
+	// ---- long-connection tiers first (cheap; see c31_long_test.go)
+	ls := &c31LongStats{}
+	longK := r.Pick(3300, 70000)
+	c31NonceTier(r, ls)
+	longOK := c31LongTier(r, ls, longK)
 
 	var cases []c31Case
 	// ---- keys
@@ -1334,6 +1348,18 @@ func TestVerifC31(t *testing.T) {
 	}
 	r.Set("cases_applicable", applicable)
 	r.Set("key_configs", st.keyRuns)
+	r.Set("nonce_walks", ls.nonceStates)
+	r.Set("nonce_steps_checked", ls.nonceSteps)
+	r.Set("nonce_walks_not_a_positional_counter", ls.nonceNotCounter)
+	r.Set("long_connection_frames_per_suite", longK)
+	r.Set("long_intact_streams", ls.longIntact)
+	r.Set("long_full_replays_from_frame_0", ls.longFull)
+	r.Set("long_snapshot_replays_every_position", ls.longSnap)
+	r.Set("long_replays_rejected", ls.longRejected)
+	r.Sanity(ls.nonceSteps > 200000 && ls.longIntact == int64(len(c31Suites)), "nonce / long tiers did not run")
+	if longOK {
+		r.Sanity(ls.longRejected == ls.longFull+ls.longSnap || r.Violations() > 0, "long replays neither rejected nor reported")
+	}
 	r.Set("frame_size_constant", F)
 	r.Set("boundary_write_sizes", boundSizes)
 	r.Set("boundary_runs", st.boundsRuns)
@@ -1358,5 +1384,5 @@ func TestVerifC31(t *testing.T) {
 		r.Sanity(st.prodMaxBuf > DefaultPacketBufferSize, "bufio direct-read path never taken")
 		r.Sanity(st.prodMinBuf > 0, "spy saw no read")
 	}
-	r.Finish(incomplete == 0)
+	r.Finish(incomplete == 0 && longOK)
 }
